@@ -166,12 +166,20 @@ class C20(Check):
             'rotation) raised at the k-th line event and at the k-th direct collaborator call - every k in the thorough tier, '
             'every 10th line and every 4th collaborator call of template_input (all of window_score) in the quick tier - plus natural failures (variable unset, unreadable '
             '/ truncated FLIST, existing rescore file, malformed .par in 8 ways, missing spPlate, absent fibre, unknown '
-            'method, unwritable dump file).  Non-trivial: a fault that fires while a touched variable differs from its entry '
+            'method, unwritable dump file).  Class ti_scale: template_input on an existing dump file of pre-processed spectra on a '
+            'ladder of problem sizes up to a realistic one (>= 3500 pixels, >= 20 iterations), each solver (pca / hmf / hmf '
+            'nonnegative), completing, failing after the solver or on an unusable dump file.  In every class the variables the '
+            'entry points do not own (thread-count family, MPLBACKEND) are on entry all absent / all set / alternately absent '
+            'and set.  Non-trivial: a fault that fires while a touched variable differs from its entry '
             'value; distinct by (entry, configuration, fault point).')
     ASSUMPTIONS = ['BaseException subclasses (KeyboardInterrupt, SystemExit) are out of scope; faults are ordinary exceptions',
                    'window_score runs with a stub sdss_score collaborator (as the repository\'s own tests do); its failure is injected',
                    'template_input runs on a synthetic two-plate survey tree (vlib/gen/survey_tree.py, content=spectra) in a temporary cwd',
-                   'only Python-level collaborators raise PY_START events; C-level calls are covered by the line-level faults']
+                   'only Python-level collaborators raise PY_START events; C-level calls are covered by the line-level faults',
+                   'runs at scale (ti_scale) read synthetic low-rank spectra from the dump file, are not fault-injected, and are observed '
+                   'with LINE events of the entry points plus PY_START of the solver stages only',
+                   'removing / setting the thread-count variables in a running process does not change the thread pools of libraries '
+                   'already loaded (scipy.linalg and scipy.cluster.vq are imported in setup)']
     REQUIRED_COUNTERS = ('entry_values_with_a_path_separator', 'ti_runs_with_unloadable_configured_backend', 'clean_runs_restored', 'line_faults_fired', 'call_faults_fired', 'natural_failures_seen',
                          'faults_while_env_modified', 'putenv_events_observed', 'ws_runs', 'ti_runs',
                          'ti_runs_from_an_existing_dump', 'realistic_scale_runs:pca', 'realistic_scale_runs:hmf',
